@@ -27,10 +27,56 @@ def _class_of_arm(c, body):
             if not [x for x in fb.walk(e) if x.get("k") in ("mcall",)]:
                 empty = True
     if has_title:
-        return "title-with-fallback" if q.has_call(ment, "Option::unwrap_or") or q.has_call(ment, "Option::unwrap_or_else") or q.has_call(ment, "Option::unwrap_or_default") else "title-no-fallback"
+        if q.has_call(ment, "Option::unwrap_or") or q.has_call(ment, "Option::unwrap_or_else") or q.has_call(ment, "Option::unwrap_or_default"):
+            return "title-with-fallback"
+        # the same fallback written as the None arm of a match / the else of an if-let on the lookup
+        for y in fb.walk(body):
+            if y.get("k") in ("call", "mcall") and any((fb.callee(y) or "").endswith(t) or (fb.rcallee(y) or "").endswith(t) for t in TITLE_LOOKUPS):
+                r = _absence_handled(c, y, body)
+                if r and r[0] in ("match", "if-let", "combinator"):
+                    return "title-with-fallback"
+        return "title-no-fallback"
     if empty:
         return "empty"
     return "original"
+
+
+_ABSENT_COMBINATORS = ("unwrap_or", "unwrap_or_else", "unwrap_or_default", "or", "or_else", "map_or", "map_or_else")
+
+
+def _absence_handled(c, lookup, scope=None, depth=0):
+    """Is the None edge of the Option produced by `lookup` given a value of its own - by a combinator (`unwrap_or(..)`, `map_or(d, ..)`), by the `None` / `_` arm of a `match` on it, or by
+    the `else` of an `if let Some(..) = <lookup>`?  -> ("combinator" | "match" | "if-let", node) or None; a filter met on the way is returned as ("filter", node)."""
+    from .common import value_chain
+    for m_ in value_chain(c, lookup):
+        if m_["name"] in ("filter", "and_then", "take_if", "filter_map", "zip", "xor"):
+            return ("filter", m_)
+        if m_["name"] in _ABSENT_COMBINATORS:
+            return ("combinator", m_)
+    for p in c.parents(lookup):
+        if p.get("k") == "match" and p.get("src", "Normal") == "Normal" and any(y is lookup for y in fb.walk(p["e"])):
+            for arm in p.get("arms", []):
+                vs = [fb.last_seg(v or "_") for v in fb.pat_variants(arm["pat"])]
+                if "None" in vs or vs == ["_"]:
+                    return ("match", arm["body"])
+            return None
+        if p.get("k") == "if" and p["c"].get("k") == "letx" and any(y is lookup for y in fb.walk(p["c"].get("init") or {})):
+            return ("if-let", p["e"]) if p.get("e") is not None else None
+        if p.get("k") == "let" and p.get("init") is not None and any(y is lookup for y in fb.walk(p["init"])):
+            if p.get("els") is not None:
+                return ("if-let", p["els"])
+            if depth < 2:
+                for _n, lid in fb.pat_bindings(p["pat"]):
+                    for use in fb.local_uses(c.fn.body, lid):
+                        r = _absence_handled(c, use, None, depth + 1)
+                        if r:
+                            return r
+            return None
+        if scope is not None and p is scope:
+            break
+        if p.get("k") == "closure":
+            break
+    return None
 
 
 def _kind_arms(facts, f, enum_suffix):
@@ -327,6 +373,8 @@ def rule_r1b(facts, rep, rid="C06-R1b"):
                 if bad:
                     rep.violation(rid, key, "the looked-up title passes `.%s(%s)` before it replaces the link text: the refresh is skipped for the titles that test rejects, so the link keeps a "
                                   "stale text although its target has a heading" % (bad[0]["name"], fb.show(bad[0]["args"][0])[:70] if bad[0]["args"] else ""), loc(f, bad[0]))
+                elif not end and (_absence_handled(c, x) or ("", None))[0] in ("match", "if-let"):
+                    rep.ok(rid, key, "the absent edge (None arm / else branch) yields the original text", loc(f, x))
                 elif not end:
                     rep.violation(rid, key, "the title lookup has no fallback to the link's own text (chain: %s)" % names, loc(f, x))
                 else:
